@@ -11,8 +11,8 @@ from vlib.core import Case
 from vlib import wire_common as W
 
 ENGINE = "wire"                       # engine of the first part (used by core.py for replays)
-BINS = ["wire", "plist"]
-LEAN_MODULES = ["DustVerif.Props.C07", "DustVerif.Props.C07Plist"]
+BINS = ["wire", "plist", "xcdr"]
+LEAN_MODULES = ["DustVerif.Props.C07", "DustVerif.Props.C07Plist", "DustVerif.Props.C07Xcdr"]
 RULE = ("part rtps: one datagram per case, `dec <hex>`: (a) valid encodings of generated messages in both byte orders, "
         "(b) one to three structure-aware mutations of them (truncation, bit flips, length-field / flag / id / "
         "numBits / 16- and 32-bit field edits with boundary values, deletions, insertions, duplicated headers), "
@@ -179,13 +179,21 @@ def plist_cases(ctx):
     return [c for c in cases if not PL.has_foreign_type_information(c.lines[0])]
 
 
+from vlib import xcdr_common as XC
+
+
+def xcdr_cases(ctx):
+    return XC.c07_cases(ctx.rng, ctx.tier)
+
+
 PARTS = [
     {"name": "rtps", "engine": "wire", "cases": rtps_cases, "oracle": rtps_oracle, "nontrivial": rtps_nontrivial},
     {"name": "plist", "engine": PL.C07_ENGINE, "cases": plist_cases, "oracle": PL.c07_oracle, "nontrivial": PL.c07_nontrivial},
+    {"name": "xcdr", "engine": "xcdr", "cases": xcdr_cases, "oracle": XC.c07_oracle, "nontrivial": None, "model_engine": XC.model_engine},
 ]
 
 
-CLAIMED = True   # parts present: see PARTS; the XCDR and parameter-list parts are appended when their engines are merged
+CLAIMED = True   # all three decoder families are present: RTPS messages, discovery parameter lists, XCDR sample payloads
 
 
 def oracle(case, out):
@@ -204,7 +212,9 @@ def run(ctx):
                 c.meta = {}
             c.meta["part"] = part["name"]
             ctx.count("part:" + part["name"])
-        ctx.differential(part["engine"], cases, nontrivial=part["nontrivial"], oracle=part["oracle"], shrink=False)
+        me = part.get("model_engine")
+        ctx.differential(part["engine"], cases, nontrivial=part["nontrivial"], oracle=part["oracle"], shrink=False,
+                         model_engine=(me() if me else None))
 
 
 LEVEL_TEXT = ("RTPS part: kernel-checked Lean theorems over ALL octet strings for the model of RtpsMessageRead::try_from "
